@@ -567,10 +567,44 @@ func genAV1LebRd(x *Ctx) {
 // ---------------------------------------------------------------------------------------------
 // c13.obuhdr (every byte pair), c13.obumar (every header with fields in range, and some outside)
 
+// av1EditEarlier is the history "an earlier result was edited by its owner": the same bytes were
+// parsed before and the caller changed the header it got, including the extension header behind the
+// exported pointer (`h.ExtensionHeader.SpatialID = 0`).  The parse under test starts from the bytes
+// alone, so what C13 says about it is the same with and without this history (the model does not take
+// it as an input; the case line records whether it took place).  Returns 1 if a header was edited,
+// and the undo (run after the observation).
+func av1EditEarlier(c *Case, in []byte) (int, func()) {
+	if !c.R.Bool() {
+		return 0, func() {}
+	}
+	var h0 *obu.Header
+	var err error
+	if try(func() { h0, err = obu.ParseOBUHeader(cloneBytes(in)) }) || err != nil || h0 == nil {
+		return 0, func() {}
+	}
+	old := *h0
+	h0.Type ^= 1
+	h0.HasSizeField = !h0.HasSizeField
+	h0.Reserved1Bit = !h0.Reserved1Bit
+	e := h0.ExtensionHeader
+	if e == nil {
+		return 1, func() { *h0 = old }
+	}
+	oldExt := *e
+	e.TemporalID = (e.TemporalID + uint8(c.R.Range(1, 7))) & 7
+	e.SpatialID = (e.SpatialID + uint8(c.R.Range(1, 3))) & 3
+	e.Reserved3Bits = (e.Reserved3Bits + uint8(c.R.Range(1, 7))) & 7
+	c.Tag("earlier-result-edited-through-its-pointer")
+	return 1, func() { *e = oldExt; *h0 = old }
+}
+
 func genAV1ObuHdr(x *Ctx) {
 	one := func(in []byte) {
 		x.Case(func(c *Case) {
 			c.I.Bytes(in)
+			edits, undo := av1EditEarlier(c, in)
+			defer undo()
+			c.I.Nat(edits)
 			var h, h2 *obu.Header
 			var err, err2 error
 			var size int
@@ -614,6 +648,9 @@ func genAV1ObuHdr(x *Ctx) {
 		x.Case(func(c *Case) {
 			in := c.R.Bytes(c.R.Range(3, 6))
 			c.I.Bytes(in)
+			edits, undo := av1EditEarlier(c, in)
+			defer undo()
+			c.I.Nat(edits)
 			h, err := obu.ParseOBUHeader(cloneBytes(in))
 			av1WriteLibHdr(&c.O, h, err)
 			if err != nil {
